@@ -36,7 +36,7 @@ CFG = {
                   "explicit width that is 0/correct/(>1 with OSC 66); uniseg's width is the terminal's when the text helpers do not re-measure; the ellipsis has width 1 for "
                   "PrintTruncate; a space has width 1; a visible cursor is inside the screen at Render (Window.ShowCursor does not clip: Witness/C11ShowCursor); after a size "
                   "change the terminal shows a well-formed grid. On a clustering terminal additionally: no two graphemes of a row join (NoJoinRows; render() writes neighbouring cells back to back — F112d; a CUP between them was evaluated and rejected: it does not help on terminals that cluster against the cell left of the cursor). "
-                  "Known finding F111c: Wrap can put the halves of one cluster (a flag beginning a later Segment) into two cells, which such a terminal shows as one glyph. app_history_displays is stated over the plain terminal; app_history_displays_clustering (Props/C01AppCluster) is its form for the clustering terminal, with RunNoJoin (NoJoinRows of the screen at every frame) as the extra hypothesis. Validated by correspondence only: "
+                  "F111c (Wrap put the halves of one cluster — a flag beginning a later Segment — into two cells, which such a terminal shows as one glyph; found by the op-level stream) is fixed in /repo 1f9a9ad. app_history_displays is stated over the plain terminal; app_history_displays_clustering (Props/C01AppCluster) is its form for the clustering terminal, with RunNoJoin (NoJoinRows of the screen at every frame) as the extra hypothesis. Validated by correspondence only: "
                   "that the Lean loops equal the Go loops beyond their pinned statement structure; screens WITH image cells (oracle treats image cells as don't-care; the "
                   "display theorems assume none). Placement loops of render() are C20's. Spec.Display is a model of a standards-conforming terminal, not a physical one.",
     "assumptions": ["terminal width of a raw-printed grapheme equals Vaxis's characterWidth under the same capability set (C07 width method)",
